@@ -239,7 +239,7 @@ def main(chk, args):
     if not build.driver_ok:
         chk.finish(build, RULE)
     predict_sweep(chk)
-    n = 40 if chk.tier == "quick" else 400
+    n = chk.scale(40 if chk.tier == "quick" else 400)
     for _ in range(n):
         run_case(chk, gen_case(chk.rng))
     lc = common.leanchecker("C02") if chk.tier == "thorough" else None
